@@ -611,14 +611,11 @@ Definition q_cmd0 (st : dstate) (ts : list tok) : list bytes :=
         (* the did_base64 field as the client sent it: refused unless it decodes (base64.StdEncoding.DecodeString) *)
         match bytes_of_tok did with
         | Some raw =>
-            match b64_decode raw with
+            match q_did64 (c_did (d_chain st)) raw with
             | None => [b "Q err 3"]
-            | Some d =>
-                match q_did (c_did (d_chain st)) d with
-                | DFound doc seq => [join_toks [b "Q"; b "ok"; print_dec seq; doc_str doc]]
-                | DNotFound => [b "Q err 5 notfound"]
-                | DDeactivated => [b "Q err 5 deactivated"]
-                end
+            | Some (DFound doc seq) => [join_toks [b "Q"; b "ok"; print_dec seq; doc_str doc]]
+            | Some DNotFound => [b "Q err 5 notfound"]
+            | Some DDeactivated => [b "Q err 5 deactivated"]
             end
         | None => bad
         end
